@@ -357,7 +357,8 @@ def roundtrip(stg, ed, rng, npatch, with_bad, form, tag="c18"):
                                      "model_message": (mm or b"")[:200].decode("utf-8", "replace"),
                                      "implementation_message": b["msg"][:200].decode("utf-8", "replace")})
             if probs:
-                if m["class"]:
+                # a known class excuses only what it describes: message / author differences
+                if m["class"] and not any(x.startswith("tree") for x in probs):
                     seen_known.add(m["class"])
                 else:
                     failures.append({"obligation": "direct-oracle:C18", "form": form, "patch": nm, "problems": probs,
